@@ -138,6 +138,34 @@ def run(ctx):
     pv = vs.func("ValueStore.put")
     ok = "self.get_value_path(value_hash)" in src(pv) and "out.write(data)" in src(pv) and "self.get_value_path(value_hash)" in src(g)
     r4.check(ok, f"{vs.rel}:ValueStore:path", "put and get do not address the same path for a hash", vs.rel, pv.lineno)
+    # put(): an early "already stored" return must compare the stored bytes (their size at least) with the bytes being written -- the mere existence of the
+    # file is also what an interrupted or still running writer leaves behind, and record_value commits the placeholder row right after put() returns.
+    pcfg = CFG(pv)
+    for nn in pcfg.nodes:
+        if nn.kind == "stmt" and isinstance(nn.ast, ast.Return) and nn.ast.value is None:
+            facts = facts_at(pcfg, nn)
+            compares_data = any(t and "data" in [x.id for x in ast.walk(ast.parse(f, mode="eval")) if isinstance(x, ast.Name)] for f, t in facts)
+            r4.check(
+                compares_data,
+                f"{vs.rel}:ValueStore.put:skip-on-existence",
+                f"put() returns without writing when `{'; '.join(f for f, t in sorted(facts) if t)}`: a partial file at that path (crashed or concurrent writer) is taken for the value, the placeholder row is "
+                "committed, and the value then reads back as an unpickling error or as different bytes instead of the recorded value",
+                vs.rel,
+                nn.lineno,
+            )
+    # readers of a placeholder row without a configured store: absent, not an exception
+    for q, absent in (("RedunBackendDb._get_value_data", "(b'', False)"), ("RedunBackendDb._get_value_size", "-1")):
+        fn = db.func(q)
+        raises = [n for n in ast.walk(fn) if isinstance(n, ast.Raise)]
+        rets = [src(r.value) for r in ast.walk(fn) if isinstance(r, ast.Return) and r.value is not None]
+        r4.check(
+            not raises and absent in rets,
+            f"{db.rel}:{q}:no-store",
+            f"{q} raises (line {raises[0].lineno if raises else '?'}) for a placeholder row when no value store is configured: a database shared with a writer that offloads values makes get_value/check_cache "
+            "fail with AssertionError instead of reading the value as absent",
+            db.rel,
+            fn.lineno,
+        )
 
 
 def _after_negative_return(cfg, call, hv: str) -> bool:
